@@ -192,7 +192,8 @@ SCHEDULES = ["vec", "vec-ro", "vec-list", "scalar", "scalar-0d", "scalar-np64", 
 def one(cfg, schedule, seed):
     """Run cfg under one evaluation schedule.  Returns digests + counters."""
     c = runs.full(dict(cfg, seed=seed))
-    blobs = c["mode"] == "blobs"
+    blobs = c["mode"] in ("blobs", "blobview")
+    bview = c["mode"] == "blobview"
     pool = None
     if schedule in ("vec", "vec-ro", "vec-list"):
         if blobs:
@@ -206,7 +207,7 @@ def one(cfg, schedule, seed):
             # call overwrites (compiled models, JAX arrays seen through numpy)
             c["ro_buffer"] = True
     else:
-        c["mode"] = "blobs" if blobs else "scalar"
+        c["mode"] = "blobview" if bview else "blobs" if blobs else "scalar"
         if schedule.startswith("scalar-"):
             c["ret_type"] = schedule.split("-")[1]      # the pointwise value as 0-d array / np.float64 / np.longdouble
         pool = {"scalar": None, "scalar-0d": None, "scalar-np64": None, "scalar-ld": None, "reversed": ReversedPool(), "permuted": PermutedPool(seed + 5), "threads": ThreadedPool(4, seed + 7), "fullapi": FullAPIPool(3, seed + 9), "executor": ExecutorPool(4, seed + 11), "tpe": None, "mpobj": None,
@@ -226,7 +227,7 @@ def one(cfg, schedule, seed):
         like.keep_log = False
         with attach.Hooks() as hk:
             attach.iteration_budget(hk, 300)
-            s.run(n_total=c["n_total"], progress=False)
+            s.run(n_total=c["n_total"], progress=bool(c.get("progress")))
     except Exception as e:
         return dict(error=f"{type(e).__name__}: {e}", trace=fmt_exc()[-500:])
     finally:
@@ -237,6 +238,13 @@ def one(cfg, schedule, seed):
             pool.join()
     H = runs.history(s)
     core = {k: H[k] for k in ("u", "x", "logl", "beta", "logz", "ess", "iter", "steps")}
+    if bview:
+        # the blob is the likelihood's argument: a deterministic function of the point, so it belongs to the compared history
+        core["blobs"] = H["blobs"]
+        nb = sum(1 for bx, xx in zip(H["blobs"], H["x"]) if np.asarray(bx).tobytes() != np.ascontiguousarray(xx).tobytes())
+        core["blobs_are_x"] = nb == 0
+    else:
+        nb = 0
     x, w, l = s.posterior(trim_importance_weights=False)
     seen = int(idblob.SHARED.value)
     reorder = 0
@@ -245,7 +253,7 @@ def one(cfg, schedule, seed):
         reorder = int(sum(1 for a, b in zip(comp, comp[1:]) if b < a))
     return dict(dtypes=(sorted(like.keep_dtypes) if (not isinstance(pool, int) or pool == 1) and schedule != "mpobj" else None),
                 dg=digest(core), post=digest(x, w, l), logz=float(s.evidence()[0]), calls=int(s.state.get_current("calls")),
-                calls_hist=[int(v) for v in H["calls"]], seen=seen, n_iter=len(H["beta"]), reorder=reorder)
+                calls_hist=[int(v) for v in H["calls"]], seen=seen, n_iter=len(H["beta"]), reorder=reorder, blob_mismatch=nb, bview=int(bview))
 
 
 def group(cfg, seed, schedules):
@@ -266,6 +274,9 @@ def run():
     # prior transforms that return single-precision / extended-precision points: every strategy hands the likelihood the same points
     cfgs += [dict(target="gauss2", kernel="rwm", clustering=False, mode="scalar", N=24, n_total=72, xdtype="float32"),
              dict(target="expface", kernel="tpcn", clustering=False, mode="scalar", N=24, n_total=72, xdtype="longdouble")]
+    # the likelihood returns its own argument as the blob (a reference to whatever array the strategy handed it)
+    cfgs += [dict(target="gauss2", kernel="tpcn", clustering=False, mode="blobview", N=24, n_total=72),
+             dict(target="bimodal", kernel="rwm", clustering=True, mode="blobview", N=24, n_total=72, progress=True)]
     cfgs += [dict(target="gauss2", kernel="tpcn", clustering=True, mode="scalar", N=32, n_total=96, like_args=True),
              dict(target="bimodal", kernel="rwm", clustering=False, mode="blobs", N=24, n_total=72, like_args=True)]
     if not ck.quick:
@@ -303,6 +314,10 @@ def run():
             ck.event("likelihood points counted by the instrumented likelihood", r["seen"])
             if sc == "threads":
                 ck.event("out-of-order completions observed in the thread pool", r["reorder"])
+            ck.event("runs whose blob is the likelihood's own argument", r.get("bview", 0))
+            if r.get("blob_mismatch"):
+                ck.violation("blob-not-of-point", f"schedule {sc}: the likelihood returns its argument as the blob, but {r['blob_mismatch']} stored batches hold blobs that differ "
+                             f"from the stored points (what a strategy hands the likelihood stays referenced by the blob)", dict(cfg=kw["cfg"], seed=kw["seed"], schedule=sc))
             if r["calls"] != r["seen"]:
                 ck.violation("calls-miscounted", f"schedule {sc}: state 'calls' = {r['calls']} but the likelihood was evaluated at {r['seen']} points "
                              f"(per-iteration calls {r['calls_hist'][:6]}...)", dict(cfg=kw["cfg"], seed=kw["seed"], schedule=sc))
